@@ -36,7 +36,9 @@ func Harness_C20_entry_discipline() {
 func Harness_C20_shard_discipline() {
 	d := NewDispatcher(DispatcherOption{Name: "c", Size: 16})
 	for _, z := range d.list {
-		verifWatchLock(z.cache, z.mu)
+		// the lru and everything it owns in container/list (root, elements): a lookup moves the
+		// element to the front, i.e. writes, so lookups need the lock in write mode as well
+		verifWatchLockDeep(z.cache, z.mu, "github.com/golang/groupcache/lru", "container/list")
 	}
 	k1 := []byte("GET h /a")
 	k2 := []byte("GET h /b")
